@@ -224,7 +224,11 @@ class HistoryRunner:
         nsteps = 0
         while ncalls < self.maxcalls and nsteps < 3 * self.maxcalls:
             nsteps += 1
-            ev_kind = rng.choice(['same', 'same', 'newall', 'newsome', 'mutate', 'layout', 'scribble', 'scribble', 'badshape', 'missing']) if ncalls else 'same'
+            if ncalls:
+                ev_kind = rng.choice(['same', 'same', 'newall', 'newsome', 'mutate', 'layout', 'scribble', 'scribble', 'badshape', 'missing'])
+            else:
+                # the very first call: mostly a regular one, sometimes one that raises (first_run must then stay True)
+                ev_kind = rng.choice(['same'] * 6 + ['layout', 'badshape', 'missing']) if nsteps < 3 else 'same'
             if not current and ev_kind in ('newall', 'newsome', 'mutate', 'layout', 'badshape', 'missing'):
                 ev_kind = 'same'
             self.counts['event:' + ev_kind] += 1
@@ -385,7 +389,7 @@ def run(c):
     maxcalls = 4 if quick else 8
     maxdepth = 4 if quick else 5
 
-    rerun_known(c)
+    known_still_fails = rerun_known(c)
 
     # ------------------------------------------------------------------ stream 1+2: programs, scripts, histories
     static_reqs = []; static_meta = []
@@ -487,6 +491,10 @@ def run(c):
             confirmed = KNOWN_SIG in m.get('dyn', []) or confirm_first_run_alias(m['compile'], m['args'], m['newvalue'])
             if confirmed:
                 c.failing_input(KNOWN_SIG, 'script hands out a writable view of a cached variable on the first call', dict(script=m['script'], verdict=a, args=describe_args(m['args'])))
+            elif known_still_fails:
+                # same code pattern as the open finding (view of a cached variable created before its setflags), but no argument
+                # value makes this particular view writable AND non-empty: benign instance, counted
+                c.count('static-h3c-flag-benign-instance-of-known-root-cause')
             else:
                 c.broken_no_input('static:h3c', 'a returned variable may be a writable view of a cached buffer (static) but the real function showed no aliasing',
                                   dict(script=m['script'], verdict=a, args=describe_args(m['args'])))
